@@ -229,8 +229,8 @@ BACKENDS = {
 RES_RE = re.compile(r'^\[([^\]]+)\] (.*): (SUCCESS|FAILURE|UNKNOWN|ERROR)\s*$', re.M)
 
 def cbmc_cmd(ob, gb, extra=(), backend=None):
-    cmd = ['cbmc', gb, '--function', ob.entry, '--drop-unused-functions', '--unwinding-assertions',
-           '--verbosity', '6']
+    cmd = ['cbmc', gb, '--function', ob.entry, '--drop-unused-functions', '--verbosity', '6']
+    cmd.append('--no-unwinding-assertions' if ob.no_uwa else '--unwinding-assertions')   # no_uwa: partial loops, stated in the bound
     chk = list(ob.checks if ob.checks is not None else DEFAULT_CHECKS)
     # CBMC 6 switches its standard checks on by default: what an obligation does not ask for is switched off
     for c in ('bounds-check', 'pointer-check', 'undefined-shift-check', 'signed-overflow-check', 'div-by-zero-check',
